@@ -96,8 +96,12 @@ def naming_and_parser(ctx, res, n):
         nfields = len(schema._fields)
         for p, owner, fld in got:
             where = dict(case, path=p)
-            if schema[p] is not fld:
-                res.violate("C16:lookup", "an enumerated path does not resolve to that field on the schema", where)
+            try:
+                resolved = schema[p]
+            except Exception as e:  # noqa
+                resolved = "<lookup raised %s: %s>" % (type(e).__name__, str(e)[:60])
+            if resolved is not fld:
+                res.violate("C16:lookup", "an enumerated path does not resolve to that field on the schema", dict(where, resolved=resolved if isinstance(resolved, str) else type(resolved).__name__))
             if cc.item_ref_path(fld) != p:
                 res.violate("C16:ref-path", "an enumerated path differs from the field's reference path", dict(where, ref_path=cc.item_ref_path(fld)))
             # configuration side: dotted == chained, membership
@@ -349,10 +353,74 @@ def explicit_key_stream(ctx, res):
                     res.violate("C16:dotted-vs-chained", "naming a field raised %s" % type(e).__name__, dict(case, error=str(e)[:120]))
 
 
+def parser_values_stream(ctx, res):
+    """what the generated parser does with the TEXT of an option: nothing but hand it to the field — a spelling the field's own
+    normalisation accepts (other case, surrounding blanks, a number as text) overrides the field with its normal form, whatever
+    choices / bounds the field declares; deep chains of sections (five levels) are named like shallow ones"""
+    import cincoconfig as cc
+    s = cc.Schema()
+    s.level = cc.StringField(choices=["debug", "info"], transform_case="lower", default="info")
+    s.mode = cc.StringField(choices=["A", "B"], transform_case="upper", transform_strip=True, default="A")
+    s.log = cc.LogLevelField(default="info")
+    s.app = cc.ApplicationModeField(default="production", create_helpers=False)
+    s.count = cc.IntField(min=1, max=10, default=1)
+    s.ratio = cc.FloatField(default=0.5)
+    s.a.b.c.d.e = cc.IntField(default=1)
+    s.a.b.c.d.flag = cc.BoolField(default=False)
+    s.a.b.c.name = cc.StringField(default="n")
+    want_paths = ["level", "mode", "log", "app", "count", "ratio", "a", "a.b", "a.b.c", "a.b.c.d", "a.b.c.d.e", "a.b.c.d.flag", "a.b.c.name"]
+    got_paths = [p for p, _, _ in cc.get_all_fields(s)]
+    res.case("parser-values:paths", kind="parser-values:paths")
+    if got_paths != want_paths:
+        res.violate("C16:enumeration", "get_all_fields does not enumerate exactly the declared paths in schema order", {"stream": "parser-values", "got": got_paths, "want": want_paths})
+        return
+    for p, owner, fld in cc.get_all_fields(s):
+        try:
+            resolved = s[p]
+        except Exception as e:  # noqa
+            resolved = None
+        if resolved is not fld or cc.item_ref_path(fld) != p:
+            res.violate("C16:lookup", "an enumerated path does not resolve to that field on the schema (or differs from its reference path)",
+                        {"stream": "parser-values", "path": p, "ref_path": cc.item_ref_path(fld)})
+    parser = cc.generate_argparse_parser(s)
+    for argv, path, want in ((["--level", "DEBUG"], "level", "debug"), (["--level", "Info"], "level", "info"), (["--mode", " b "], "mode", "B"), (["--mode", "a"], "mode", "A"),
+                             (["--log", "DEBUG"], "log", "debug"), (["--app", "DEVELOPMENT"], "app", "development"), (["--count", " 7 "], "count", 7), (["--count", "+3"], "count", 3),
+                             (["--ratio", "1e1"], "ratio", 10.0), (["--a-b-c-d-e", "42"], "a.b.c.d.e", 42), (["--a-b-c-d-flag"], "a.b.c.d.flag", True),
+                             (["--a-b-c-name", "deep"], "a.b.c.name", "deep")):
+        case = {"stream": "parser-values", "argv": argv, "path": path}
+        res.case(stable(case), kind="parser-values:override")
+        cfg = s()
+        try:
+            direct = s()
+            if len(argv) == 2:
+                direct[path] = argv[1]
+            else:
+                direct[path] = True
+            expected = direct[path]
+        except Exception:  # noqa  (the field itself refuses this spelling: nothing to ask of the parser)
+            res.hist["parser-values:field-refuses"] += 1
+            continue
+        try:
+            ns = parser.parse_args(argv)
+            cc.cmdline_args_override(cfg, ns)
+            got = cfg[path]
+        except BaseException as e:  # noqa  (argparse leaves through SystemExit)
+            res.violate("C16:parser-refuses-what-the-field-accepts", "the generated parser (or the override) refused an option value that the field itself accepts: %s" % type(e).__name__,
+                        dict(case, field_normal_form=expected))
+            continue
+        if got != expected or got != want or type(got) is not type(want):
+            res.violate("C16:override", "a command-line override did not store the field's normal form of the supplied text", dict(case, got=got, want=want))
+        others = {p: cfg[p] for p, _, f in cc.get_all_fields(s) if p != path and not isinstance(f, cc.Schema)}
+        fresh = s()
+        if any(fresh[p] != v for p, v in others.items()):
+            res.violate("C16:override-touched-unsupplied", "cmdline_args_override changed a field the command line did not supply (or asked to ignore)", case)
+
+
 def run(ctx, n_quick=200, n_thorough=6000):
     res = Result()
-    naming_and_parser(ctx, res, ctx.n(n_quick, n_thorough))
+    guard(res, "C16", naming_and_parser, ctx, res, ctx.n(n_quick, n_thorough))
     guard(res, "C16", explicit_key_stream, ctx, res)
+    guard(res, "C16", parser_values_stream, ctx, res)
     P.run_stream(ctx, res, "C16", ctx.n(n_quick, n_thorough), oracle, gen_ops=gen_ops, ops_len=(3, 6), schema_gen=lambda rng, t, k: no_collision_schema(rng, t, k))
     return res
 
